@@ -423,6 +423,7 @@ func cmdRun(args []string) int {
 	pstr := fs.String("params", "", "k=v,k=v")
 	stubs := fs.String("stubs", "", "callee=stub;callee=stub")
 	noops := fs.String("noops", "", "callee;callee")
+	rewrite := fs.String("rewrite", "", "native rewrite entries file.go:Recv.Method=stub;...")
 	fix := fs.String("fix", "", "replay.json whose vals make the run concrete")
 	uf := fs.Bool("uf", false, "floats as UF")
 	dump := fs.String("dump", "", "dump scripts to dir")
@@ -454,6 +455,9 @@ func cmdRun(args []string) int {
 		if fixedVals == nil {
 			fixedVals = map[string]int64{}
 		}
+	}
+	if *rewrite != "" {
+		js.Rewrite = strings.Split(*rewrite, ";")
 	}
 	if *noops != "" {
 		js.Noops = strings.Split(*noops, ";")
